@@ -10,4 +10,5 @@ def cases(seed, tier):
     out += [case_joint(PROPERTY, *s, tag="/upd") for s in upd_grid(seed, "C07", tier)]
     out += [case_joint(PROPERTY, *s, tag=t) for s, t in ctor_grid(seed, "C07", tier)]
     out += [case_joint(PROPERTY, *s, tag="/hd") for s in hd_grid(seed, "C07", tier)]
+    out += [case_joint(PROPERTY, *s) for s in nn_grid(seed, "C07", tier)]       # NN-controlled class through its own methods (u=...)
     return seeded(out, seed)
